@@ -24,6 +24,11 @@ set t4 to transform
   if n > 2 then return head match end
   return tail match + y
 end
+set t5 to transform set match to match + '!' set seen to 'S' return match end
+set t6 to transform set x to 'Q' + x set matchNumber to 7 return x end
+set t7 to transform return seen + '|' + x + '|' + matchNumber end
+set pcap to pattern (any = x)
+set pcap2 to pattern ('a' = x) or (any = y)
 `
 
 func c05Items() []withItem {
@@ -69,11 +74,15 @@ func c05Items() []withItem {
 			}
 			return tail(m.Value) + v["y"]
 		}},
+		{"t5", func(m engine.Match, _ map[string]string, _ int) string { return m.Value + "!" }},
+		{"t6", func(_ engine.Match, v map[string]string, _ int) string { return "Q" + v["x"] }},
+		{"t7", func(m engine.Match, v map[string]string, _ int) string { return "|" + v["x"] + "|" + strconv.Itoa(m.MatchNumber) }},
 	}
 }
 
 var c05Bodies = []string{
 	"any = x", "(any = x) maybe (any = y)", "('a' = x) or ('b' = y)", "at least 1 'a'", "(at least 1 'a') = x 'b'", "any",
+	"pcap maybe (any = y)", "pcap2 maybe pcap2",
 	"(maybe 'a') = x ('b' or '\\n') = y", "(any = y) maybe (y = x)", "at least 1 ((any = x) (any = y))", "'a' (at least 0 any fewest) = y 'b'",
 }
 
@@ -81,7 +90,7 @@ func init() {
 	register(&Check{
 		ID:    "C05",
 		Level: "exploration",
-		Rule: "every `with` list of length 1..k over 17 items (2 string literals, captures x y, the 8 built-ins, an undefined name, 4 transforms reading match / matchNumber / matchLength / captures) x 10 bodies with 0-2 captures whose values differ between matches x every text over {a,b,\\n} up to the length bound; " +
+		Rule: "every `with` list of length 1..k over 20 items (2 string literals, captures x y, the 8 built-ins, an undefined name, 7 transforms reading and ASSIGNING match / matchNumber / captures / locals) x 12 bodies (two with the captures declared inside `set .. to pattern` definitions) with 0-2 captures whose values differ between matches x every text over {a,b,\\n} up to the length bound; " +
 			"expected replacement = concatenation of the items computed from the match record itself, and the matches must equal those of `find all` with the same body; non-trivial = distinct (list,body,text) triples with at least 2 matches",
 		Assume: []string{"the four transforms are fixed; the general evaluator is C11's subject", "Run(string) reports filename 'text'"},
 		Budget: map[string]int{"quick": 120, "thorough": 1200},
@@ -111,7 +120,7 @@ func runC05(c *Ctx) {
 	}
 	for bi, body := range c05Bodies {
 		// reference: find all with the same body
-		findSrc := "find all " + body
+		findSrc := c05Transforms + "find all " + body
 		fv, err, pi := compileSafe(findSrc)
 		if err != nil || pi != nil {
 			if c.Unit(func() string { return findSrc }) {
